@@ -19,8 +19,11 @@
     is the builder before d693174).
   * Transport here is VALUE-LEVEL only: each big integer / byte string of the material is written and
     read back in the chosen encoding.  The structure-level transport (order and tagging of the fields,
-    enumerations, the message framing) is the business of C01/C04 and is the identity on the
-    `KeyBlockV` shape here.
+    enumerations, the slot of KeyMaterial chosen by the key format) is composed with the C01 codec theorem for
+    the binary encoding in `Lemmas/KeyWire.lean` (`objVal` / `valObj`); for XML / JSON it is checked on the real
+    code by the engine.
+  * A builder takes the format it registers the key in as an argument (`register…F`); the selectors of
+    register.go are one `admissible` way of choosing it from a format mask (`selectFormat`).
 
   Core Lean only (linked into `kmip-model`).
 -/
